@@ -217,6 +217,28 @@ MANIFEST["note"] += ("; node model: one node only (no split, no second node), by
                      "beyond lkl not compared")
 
 
+# writer of the chain of node records (Model/KvChain.lean): the node clause for ANY number of nodes - `_lx_addkv` routing,
+# `_lx_split_addkv` (new node in front / behind, split at the pivot), removal of an emptied node
+THEOREMS += ["IwModel.C06." + t for t in (
+    "chaininv_empty", "split_keeps_nodeinv", "chaininv_put", "chaininv_del", "chaininv_history",
+    "chain_history_nodeinv", "chain_history_order", "chain_history_audit")]
+MODELLED_FUNCS['src/kv/iwkv.c'] += ['_lx_roll_forward', '_lx_put_lw']
+MANIFEST["text"] += ("; and on a writer model of the whole level-0 CHAIN of node records (IwModel.KvChain: `_lx_addkv` routing - overwrite, add to the "
+                     "node found, add to its upper neighbour, new node in front of / behind a full node - and `_lx_split_addkv`: block of the new node "
+                     "sized by sz, records pi[17..32) moved with raw keys and no sync in between, their slots reset with zidx = pi[17], new record to "
+                     "the upper or lower half, caches of both halves; node removal on the last delete): every node satisfies NodeInv after every "
+                     "operation of every history with any number of keys (chain_history_nodeinv, core: split_keeps_nodeinv), the nodes are non-empty, "
+                     "hold <= 32 records and are in strictly descending key order across nodes (chain_history_order), every node passes the node "
+                     "part of the audit (chain_history_audit); after EVERY operation of generated histories with 40-400+ keys (splits at every "
+                     "insert position, repeated splits of one key range, nodes emptied at head / middle / tail, keys longer than 115 bytes sharing "
+                     "their prefix across the split point, compound keys) every node of the chain in the file is compared with the model node at "
+                     "the same chain position: pnum, pi[0..pnum), lkl, cached bytes, FULL_LKEY bit, data block")
+MANIFEST["note"] += ("; chain model: lookup walks level 0 only (levels / links / addresses / page slots: link model), byte-string comparator only; "
+                     "refinement of the chain contents to the ordered-map spec (values) is not proved on the byte-level model (C01 proves it on the "
+                     "abstract node model; the stream compares contents with the reference map), the audit theorem is per node (cross-node key "
+                     "order is proved as chain_history_order, not yet through keyErrs)")
+
+
 def gen_link_history(r, nbulk, nwaves, cursors=False):
     """one or two plain-key databases; every put/del is followed by `nodes` and `image`.  With `cursors`, some waves
     are a cursor walking back from the end that deletes record after record (`cur 0 del`, whole nodes go through
@@ -1068,6 +1090,238 @@ def explore_node(ctx, h, drv, n, nops, label):
                         pass
 
 
+# ---------------------------------------------------------------- chain of node records: writer model `IwModel.KvChain`
+#
+# One database with 40..400+ keys (several nodes), an image after EVERY operation.  `drv kvchain` replays the ops on the chain writer
+# model (`_lx_addkv` routing, `_lx_split_addkv`, node removal on the last delete) and compares, at every image, EVERY node record of the
+# level-0 chain the Lean format reader finds with the model node at the same chain position: pnum, pi[0..pnum), lkl, cached bytes,
+# FULL_LKEY bit, and its data block (szpow, idxsz, 32 slot pairs, records, live bytes).  Keys are `prefix ++ 3-byte number ++ tail`:
+# base keys (multiples of 16) are loaded in monotone order, which yields full nodes of 32 records at known chain positions; directed
+# inserts of gap keys then hit a chosen full node at a chosen position (1..16, 17 = pivot, 18..31: middle split; 32 / 0: a new node
+# behind / in front, or the neighbour with room), runs of gap keys split the same key range again and again, range deletes empty nodes
+# at the head, in the middle and at the tail of the chain.
+
+CHAIN_PROFILES = ["short", "long", "edge", "mixedlen", "compound", "short", "long", "mixedlen"]
+CHAIN_STEP = re.compile(r"^(put|putbig|del|cur \d+ set|cur \d+ del) ")
+CHAIN_POS = [1, 2, 8, 16, 17, 17, 17, 18, 19, 25, 31, 32, 0]
+
+
+def gen_chain_history(r, nbase, nrandom, profile, big=True, order=None):
+    comp = profile == "compound"
+    base = bytes(r.randrange(1, 255) for _ in range(160))
+    bodies = sorted(set(bytes(r.randrange(256) for _ in range(r.choice([1, 3, 20, 120]))) for _ in range(3)))
+    plen = dict(short=r.choice([0, 2]), long=r.choice([115, 118, 130]), edge=r.choice([112, 113, 114]), mixedlen=r.choice([1, 60]), compound=0)[profile]
+    tails = {}
+
+    def key(n):
+        """universe element number n -> (body, compound part); the order of the elements is the order of the numbers"""
+        if comp:
+            b = bodies[n * len(bodies) // (16 * nbase + 16)]
+            return (b, n * r_scale)
+        if n not in tails:
+            tails[n] = bytes(r.randrange(256) for _ in range(r.choice([0, 0, 1, 5, 60, 120]))) if profile == "mixedlen" else b""
+        return (base[:plen] + n.to_bytes(3, "big") + tails[n], 0)
+    r_scale = r.choice([1, 1000, 1 << 40])
+    live = {}
+    ops = ["open 0 1 0", "db 1 %d" % (G.COMPOUND if comp else 0)]
+    nimg = [0]
+    checks = []                       # (index of op line, expected answer) for lines the reference map does not predict
+
+    def img():
+        nimg[0] += 1
+        ops.append("image @IMG%d" % nimg[0])
+
+    def vsize():
+        x = r.random()
+        return r.choice([0, 1, 2, 5, 9]) if x < 0.7 else r.choice([20, 40, 90, 130, 300]) if x < 0.97 else r.choice([600, 1500])
+
+    def put(n, sz=None):
+        e = key(n)
+        sz = vsize() if sz is None else sz
+        ops.append("put 1 %s %d %s 0 %d" % (G.H(e[0]), e[1], G.H(_val(r, sz)), r.choice(LINK_LEVELS)))
+        live[n] = sz
+        img()
+
+    def putbig(n):
+        e = key(n)
+        checks.append((len(ops), "put maxkvsz"))
+        ops.append("putbig 1 %s %d %d" % (G.H(e[0]), e[1], MAXKVSZ + 1))
+        img()
+
+    def cset(n):
+        e = key(n)
+        sz = vsize()
+        ops.append("cur 0 open 1 eq %s %d" % (G.H(e[0]), e[1]))
+        ops.append("cur 0 set %s 0" % G.H(_val(r, sz)))
+        ops.append("cur 0 close")
+        if n in live:
+            live[n] = sz
+        img()
+
+    def dele(n):
+        e = key(n)
+        ops.append("del 1 %s %d" % (G.H(e[0]), e[1]))
+        live.pop(n, None)
+        img()
+
+    def cdel(n):
+        e = key(n)
+        ops.append("cur 0 open 1 eq %s %d" % (G.H(e[0]), e[1]))
+        ops.append("cur 0 del")
+        ops.append("cur 0 close")
+        live.pop(n, None)
+        img()
+
+    # phase A: base keys in monotone order -> full nodes of 32 at known positions (chain order = descending keys)
+    nums = [16 * (i + 1) for i in range(nbase)]
+    order = order or r.choice(["asc", "desc", "desc", "random"])
+    if order == "random":
+        load = nums[:]
+        r.shuffle(load)
+    else:
+        load = nums if order == "asc" else nums[::-1]
+    for n in load:
+        put(n, r.choice([0, 1, 2, 5, 9, 9, 20, 130]) if profile != "long" else r.choice([0, 1, 3]))
+    desc = nums[::-1]
+    if order == "desc":
+        nodes = [desc[a:a + 32] for a in range(0, nbase, 32)]
+    elif order == "asc":
+        rem = nbase % 32
+        nodes = ([desc[:rem]] if rem else []) + [desc[a:a + 32] for a in range(rem, nbase, 32)]
+    else:
+        nodes = []
+    # phase B: directed inserts into full nodes
+    full = [i for i, nd in enumerate(nodes) if len(nd) == 32]
+    r.shuffle(full)
+    poss = CHAIN_POS[:]
+    r.shuffle(poss)
+    bigdone = not big
+    for t, j in enumerate(full[:10]):
+        p = poss[t % len(poss)]
+        nd = nodes[j]
+        if p == 0:
+            g = nd[0] + r.randrange(1, 16)                   # in front of the first key of node j
+        elif p == 32:
+            g = nd[31] - r.randrange(1, 16)                  # behind its last key
+        else:
+            g = nd[p] + r.randrange(1, 16)                   # between position p-1 and p
+        if not bigdone and 1 <= p <= 31:
+            putbig(g)                                        # refused by size: must leave the full node as it is
+            bigdone = True
+        put(g, r.choice([None, None, 300, 700]))
+        if 1 <= p <= 31 and j > 0 and len(nodes[j - 1]) == 32 and (j - 1) not in full[:t] and r.random() < 0.7:
+            put(nodes[j - 1][31] - r.randrange(1, 16))        # behind the last key of the full node in front: its upper neighbour (the lower half) has room now
+        if r.random() < 0.5:                                  # and again into the same key range: the halves fill up and split again
+            lo = nd[min(31, p + 2)] if p < 30 else nd[31] - 15
+            hi = nd[max(0, p - 3)]
+            cand = [x for x in range(lo, hi) if x % 16 and x not in live]
+            r.shuffle(cand)
+            for x in cand[:r.choice([5, 20, 40])]:
+                put(x)
+    # phase C/D: random operations, runs of gap keys, range deletes that empty nodes
+    top = 16 * nbase + 16
+    while nimg[0] < nbase + nrandom + 40:
+        x = r.random()
+        n = r.randrange(1, top)
+        lv = sorted(live)
+        if x < 0.30:
+            put(n)
+        elif x < 0.40 and lv:
+            put(r.choice(lv))                                 # overwrite
+        elif x < 0.47 and lv:
+            cset(r.choice(lv))
+        elif x < 0.50:
+            cset(n)
+        elif x < 0.62 and lv:
+            (cdel if r.random() < 0.3 else dele)(r.choice(lv))
+        elif x < 0.65:
+            dele(n)
+        elif x < 0.75:                                        # a run of neighbouring keys
+            a = r.randrange(1, top)
+            for y in range(a, min(top, a + r.choice([8, 20, 45]))):
+                if y not in live:
+                    put(y, r.choice([0, 1, 2]))
+        elif x < 0.90 and lv:                                  # range delete: head (largest keys), middle, tail of the chain
+            where = r.choice(["head", "middle", "tail"])
+            cnt = r.choice([20, 40, 70])
+            if where == "head":
+                vict = lv[::-1][:cnt]
+            elif where == "tail":
+                vict = lv[:cnt]
+            else:
+                a = r.randrange(len(lv))
+                vict = lv[a:a + cnt]
+            if r.random() < 0.3:
+                r.shuffle(vict)
+            elif r.random() < 0.5:
+                vict = vict[::-1]
+            for y in vict:
+                (cdel if r.random() < 0.15 else dele)(y)
+        elif lv:
+            put(r.choice(lv), r.choice([300, 700, 1500]))      # growing record: block compaction / growth inside a node of the chain
+    ops += ["dump 1", "close", "image @IMGclosed"]
+    return ops, checks
+
+
+def chain_oracle(ops, checks):
+    base = block_oracle(ops)
+
+    def oracle(lines):
+        for i, want in checks:
+            if i < len(lines) and lines[i] != want:
+                return "op %d `%s`: implementation `%s`, expected `%s`" % (i, ops[i][:60], lines[i][:120], want)
+        return base(lines)
+    return oracle
+
+
+def explore_chain(ctx, h, drv, sizes, nrandom, label):
+    r = C.Rng(ctx.seed, "c06chain/" + label)
+    d = os.path.join(C.scratch(), "imgc")
+    os.makedirs(d, exist_ok=True)
+    cases = []
+    for i, nbase in enumerate(sizes):
+        prof = CHAIN_PROFILES[(i + ctx.seed) % len(CHAIN_PROFILES)]
+        g, checks = gen_chain_history(r, nbase, nrandom, prof, order=["desc", "asc", "desc", "random", "asc"][i % 5])
+        ops = [l.replace("@IMG", os.path.join(d, "%s-%d-" % (label, i))) for l in g]
+        cases.append(Case("chain-" + prof, ops, chain_oracle(ops, checks), key=hash(tuple(ops))))
+    ctx.sample(dict(kind="chain-history", n_ops=len(cases[0].ops), first_ops=[l[:80] for l in cases[0].ops[:6]]))
+    canon = lambda l: "image" if l.startswith("image ") and not l.startswith("image 0") and not l.startswith("image -1") else ("dump" if l.startswith("dump ") else l)
+    crashed = False
+    for a in range(0, len(cases), 2):
+        if crashed:
+            break
+        chunk = cases[a:a + 2]
+        probs = differential(ctx, [h, C.scratch() + "/kv6c-%s.db" % label], [drv, "kvchain"], chunk, timeout=300, canon=canon)
+        crashed = crashed or any(p[0] == "crash" for _, p in probs)
+        for c, p in probs:
+            if p[0] == "diverge" and (p[3].startswith("image BAD") or p[3].startswith("image UNREADABLE")):
+                ctx.hist("chain:audit-bad")
+                cls = re.sub(r"\d+", "N", p[3])[:70]
+                ctx.fail(dict(kind="audit", cls=cls, stream="chain"), dict(ops=[l for l in c.ops[:p[1]] if not l.startswith("image ")] + [c.ops[p[1]]], audit=p[3][:300]),
+                         "file image not well-formed after op %d: %s" % (p[1], p[3][:300]))
+            elif p[0] == "diverge":
+                ctx.hist("chain:diverge")
+                ctx.corr_broken.append("chain writer model / implementation diverge at op %d `%s`: impl `%s` model `%s` (history prefix: %s)" % (
+                    p[1], c.ops[p[1]][:80], p[2][:100], p[3][:300], [l[:60] for l in c.ops[max(0, p[1] - 4):p[1]]]))
+            else:
+                ctx.fail(c01.signature(c, p), dict(ops=c.ops, detail=p[1:]), str(p[1])[:400])
+        rc, tr, _ = C.run_lines([drv, "kvchain-trace"], [l for c in chunk for l in c.ops], timeout=300)
+        for l in tr:
+            for w in l.split()[2:]:
+                if ":" in w:
+                    ctx.hist("chain:" + w)
+        for c in chunk:
+            if c.model is not None:
+                ctx.hist("chain:images", sum(1 for l in c.model if l == "image"))
+                ctx.hist("chain:steps", sum(1 for l in c.ops if CHAIN_STEP.match(l)))
+            for l in c.ops:
+                if l.startswith("image "):
+                    try:
+                        os.unlink(l.split()[1])
+                    except OSError:
+                        pass
+
+
 # ---------------------------------------------------------------- oversize records: a refused put must leave the block as it was
 
 MAXKVSZ = 0xfffffff
@@ -1161,7 +1415,9 @@ def run(ctx):
         if ctx.tier == "quick":
             explore_block(ctx, h, drv, 40, 150, "bq")
             explore_node(ctx, h, drv, 27, 100, "nq")
+            explore_chain(ctx, h, drv, [40, 70, 130, 400], 120, "cq")
         else:
+            explore_chain(ctx, h, drv, [40, 45, 64, 70, 100, 130, 200, 300, 400, 400, 500, 96, 160, 33, 250, 350], 300, "ct")
             explore_node(ctx, h, drv, 270, 150, "nt")
             explore_node(ctx, h, drv, 18, 1200, "ntl")
             explore_block(ctx, h, drv, 400, 200, "bt")
@@ -1172,6 +1428,13 @@ def run(ctx):
                             "and the next one is long / short / shares the cached bytes, overwrite of the first key with a moving record, insert in front of "
                             "the first key), puts, deletes, cursor sets and cursor deletes: the Lean node writer model (IwModel.KvNode) must equal the node "
                             "record in the file (pnum, pi, lkl, cached bytes, FULL_LKEY bit) and its data block after EVERY op")
+    if drv:
+        ctx.cov["rule"] += ("; chain stream: one database with 40-400+ keys `prefix ++ 3-byte number ++ tail` (short, > 115 bytes with a common "
+                            "115-byte start, number straddling byte 115, mixed lengths, compound), base keys loaded in monotone order (full nodes of 32 "
+                            "at known chain positions), directed inserts of gap keys at position 0 / 1..16 / 17 / 18..31 / 32 of a chosen full node, an "
+                            "oversize put into a full node, runs of gap keys splitting one key range repeatedly, range deletes emptying nodes at head / "
+                            "middle / tail, overwrites with growing values, cursor sets / deletes: the Lean chain writer model (IwModel.KvChain) must equal "
+                            "EVERY node record of the level-0 chain in the file and its data block, by chain position, after EVERY op")
     if (ctx.proof_broken or ctx.corr_broken) and not ctx.violations:
         explore(ctx, h, drv, 80, 250, "search")
 
